@@ -27,6 +27,16 @@ MAX_SMALLINT = 2**15 - 1
 MAX_INTEGER = 2**31 - 1
 MAX_BIGINT = 2**63 - 1
 
+
+def _decimal_digits_for(sign_adjusted_limit):
+    """
+    Number of decimal digits a column needs to store any integer of a range
+    whose bigger limit is ``sign_adjusted_limit`` (see
+    :py:meth:`cutplace.fields.IntegerFieldFormat.sql_ansi_type`); a negative
+    limit can have an absolute value that is bigger by 1.
+    """
+    return len(str(sign_adjusted_limit + 1))
+
 #: SQL dialect name: ANSI SQL
 ANSI = "ANSI"
 #: SQL dialect name: DB2 used by IBM
@@ -762,7 +772,7 @@ class PlSqlDialect(AnsiSqlDialect):
         elif ansi_type == "int":
             length = sql_ansi_type[1]
             if length > MAX_INTEGER:
-                result = ("number", length, 0)
+                result = ("number", _decimal_digits_for(length), 0)
 
         return result
 
@@ -980,7 +990,7 @@ class TransactSqlDialect(AnsiSqlDialect):
             elif limit <= MAX_BIGINT:
                 result = ("bigint", limit)
             else:
-                result = ("decimal", limit, 0)
+                result = ("decimal", _decimal_digits_for(limit), 0)
         else:
             result = sql_ansi_type
 
@@ -1303,7 +1313,7 @@ class Db2SqlDialect(AnsiSqlDialect):
             elif length <= MAX_BIGINT:
                 result = ("bigint", length)
             else:
-                result = ("decimal", length)
+                result = ("decimal", _decimal_digits_for(length))
         return result
 
     def __str__(self):
